@@ -1,13 +1,36 @@
-import OmplModel.Model.Pdf
+import OmplModel.Model.CellPdf
 import OmplModel.Driver.Common
 /-! Line-protocol driver for the PDF model.  Header: `pdf` (descent with the F2 bound guard, i.e.
-the code after the fix) or `pdf old` (the descent before the fix, checked reads print `oob`). -/
+the code after the fix) or `pdf old` (the descent before the fix, checked reads print `oob`).
+`add` / `upd` / `rm` run the CHECKED twins of `Model/PdfChecked.lean` (every container access of the C++ explicit;
+an access outside the storage prints `oob` and leaves the state alone); `err-neg` is the model's own rejection.
+Header `cellpdf`: the cell-PDF protocol of SBL / control::EST (`Model/CellPdf.lean`): `addm <coord>` / `rmm <coord>` /
+`cclear` with `<coord>` = comma-separated integers; the dump adds `cells=<coord>:<count>:<elem_ points back>;…` in PDF
+element order. -/
 namespace OmplModel.Driver.PdfDrv
 open OmplModel.Pdf OmplModel.Driver
 
 structure St where
   old : Bool
   pdf : Pdf Float
+  cp : Option (OmplModel.CellPdf.St Float) := none
+
+/-- the weights as coded: `1.0` for a new cell, `1.0 / cell->data.size()` otherwise -/
+def cellCfg : OmplModel.CellPdf.Cfg Float := { wOne := 1.0, wCell := fun n => 1.0 / n.toFloat }
+
+def parseCoord? (t : String) : Option (List Int) := (t.splitOn ",").mapM parseInt?
+
+def coordStr (c : List Int) : String := ",".intercalate (c.map toString)
+
+/-- the grid cells in PDF element order, through the element payload (`owner`) -/
+def cellsDump (c : OmplModel.CellPdf.St Float) : String :=
+  "cells=" ++ ";".intercalate (c.pdf.data.toList.map fun h =>
+    match c.owner h with
+    | none => "?"
+    | some co =>
+      match c.cell co with
+      | none => coordStr co ++ ":gone"
+      | some (n, e) => coordStr co ++ ":" ++ toString n ++ ":" ++ (if e = h then "1" else "0"))
 
 def commaNats (xs : List Nat) : String := ",".intercalate (xs.map toString)
 
@@ -23,27 +46,58 @@ def dump (s : Pdf Float) : String :=
 
 def init (ts : List String) : Option St :=
   match ts with
-  | ["pdf"] => some ⟨false, {}⟩
-  | ["pdf", "old"] => some ⟨true, {}⟩
+  | ["pdf"] => some ⟨false, {}, none⟩
+  | ["pdf", "old"] => some ⟨true, {}, none⟩
+  | ["cellpdf"] => some ⟨false, {}, some {}⟩
   | _ => none
 
 def live (s : Pdf Float) (h : Nat) : Bool := (s.idx h).isSome
 
-def step (st : St) (ts : List String) : St × String :=
+def cellStep (st : St) (c : OmplModel.CellPdf.St Float) (ts : List String) : St × String :=
+  let go (op : OmplModel.CellPdf.COp) : St × String :=
+    match OmplModel.CellPdf.stepC cellCfg c op with
+    | some c' => ({ st with cp := some c' }, "ok | " ++ dump c'.pdf ++ " " ++ cellsDump c')
+    | none => (st, "oob | " ++ dump c.pdf ++ " " ++ cellsDump c)
+  match ts with
+  | ["addm", co] =>
+    match parseCoord? co with
+    | some co => go (.add co)
+    | none => (st, "bad-op")
+  | ["rmm", co] =>
+    match parseCoord? co with
+    | some co => go (.remove co)
+    | none => (st, "bad-op")
+  | ["cclear"] => go .clear
+  | _ => (st, "bad-op")
+
+def pdfStep (st : St) (ts : List String) : St × String :=
   let s := st.pdf
   let fin (s' : Pdf Float) (res : String) : St × String := ({ st with pdf := s' }, res ++ " | " ++ dump s')
   match ts with
   | ["add", w] =>
     match parseFloatBits? w with
-    | some w => if w < 0 then fin s "err-neg" else fin (s.add w) s!"h={s.next}"
+    | some w =>
+      match s.addC w with
+      | some s' => if s'.next = s.next then fin s' "err-neg" else fin s' s!"h={s.next}"
+      | none => fin s "oob"
     | none => (st, "bad-op")
   | ["upd", h, w] =>
     match parseNat? h, parseFloatBits? w with
-    | some h, some w => if live s h then fin (s.update h w) "ok" else fin s "dead"
+    | some h, some w =>
+      if live s h then
+        match s.updateC h w with
+        | some s' => fin s' "ok"
+        | none => fin s "oob"
+      else fin s "dead"
     | _, _ => (st, "bad-op")
   | ["rm", h] =>
     match parseNat? h with
-    | some h => if live s h then fin (s.remove h) "ok" else fin s "dead"
+    | some h =>
+      if live s h then
+        match s.removeC h with
+        | some s' => fin s' "ok"
+        | none => fin s "oob"
+      else fin s "dead"
     | none => (st, "bad-op")
   | ["smp", r] =>
     match parseFloatBits? r with
@@ -83,5 +137,10 @@ def step (st : St) (ts : List String) : St × String :=
       | none => (st, "bad-op")
     | _ => (st, "bad-op")
   | _ => (st, "bad-op")
+
+def step (st : St) (ts : List String) : St × String :=
+  match st.cp with
+  | some c => cellStep st c ts
+  | none => pdfStep st ts
 
 end OmplModel.Driver.PdfDrv
